@@ -4,7 +4,7 @@
    panic is an observed outcome).  [agree]: the model with every guard present ([..._now]) predicts
    exactly the observed outcome.  [P_b]: the property on the observed outcome alone: no panic on
    any input of the domain, and the error / fallback the statement names. *)
-From Verif Require Export Lib.Base Model.C16_Paths.
+From Verif Require Export Lib.Base Model.C16_Paths Model.C16_Sessions.
 
 (* ------------------------------------------------------------------------------------------- *)
 (* equality tests *)
@@ -45,7 +45,11 @@ Inductive input :=
 | IDuties (ds : list aduty) (held : list N)
 | IHead (h : head_in)
 | IErrBody (s : server) (b : err_body)
-| IDynamic (primary : fetch) (fallback : option fetch).
+| IDynamic (primary : fetch) (fallback : option fetch)
+(* sessions: one service instance, several operations, providers scripted call by call *)
+| IHeadSeq (script : list block_answer) (evs : list head_event)
+| IDynamicSeq (calls : N) (ps : list fetch) (fs : option (list fetch))
+| IProposeSeq (ops : list p1_in).
 
 Inductive observed :=
 | OPropose (panicked : bool) (tr : p1_trace)
@@ -56,7 +60,10 @@ Inductive observed :=
 | ODuties (l : list (N * outcome (list att_row) att_err))
 | OHead (o : outcome (option N) unit)
 | OErrBody (o : outcome unit unit)
-| ODynamic (o : outcome (list N) gr_err).              (* the line that was chosen *)
+| ODynamic (o : outcome (list N) gr_err)               (* the line that was chosen *)
+| OHeadSeq (l : list (outcome (option N) unit))        (* the execution head after the constructor and after each event, up to the first panic *)
+| ODynamicSeq (l : list (outcome (list N) gr_err))     (* the line chosen by each call *)
+| OProposeSeq (l : list (bool * p1_trace)).            (* per proposal: panicked?, what the mocks saw; up to the first panic *)
 
 Record case := { c_id : N; c_in : input; c_obs : observed }.
 
@@ -82,6 +89,21 @@ Fixpoint config_run (cur : option config) (steps : list (doc * list (N * N)))
 Definition sorted_ids := sort_by (fun x : N => x).
 Definition id_set (l : list N) : list N := sorted_ids (dedup l []).
 
+Definition dynamic_agree (o : outcome (list N) gr_err) (m : outcome (list (list N)) gr_err) : bool :=
+  match o, m with
+  | Ok line, Ok ls => memb bytes_eqb line ls
+  | Err _, Err _ => true
+  | Panic, Panic => true
+  | _, _ => false
+  end.
+
+Fixpoint all2 {A B} (f : A -> B -> bool) (l : list A) (m : list B) : bool :=
+  match l, m with
+  | [], [] => true
+  | a :: l', b :: m' => f a b && all2 f l' m'
+  | _, _ => false
+  end.
+
 Definition agree (c : case) : bool :=
   match c_in c, c_obs c with
   | IPropose i, OPropose p tr =>
@@ -98,13 +120,13 @@ Definition agree (c : case) : bool :=
       list_eqb (prod_eqb N.eqb (outcome_eqb (list_eqb row_eqb) att_err_eqb)) l (attest_all_now ds held)
   | IHead h, OHead o => outcome_eqb (option_eqb N.eqb) unit_eqb o (handle_head_now h)
   | IErrBody s b, OErrBody o => outcome_eqb unit_eqb unit_eqb o (classify_now s b)
-  | IDynamic p f, ODynamic o =>
-      match o, dynamic_graffiti p f with
-      | Ok line, Ok ls => memb bytes_eqb line ls
-      | Err _, Err _ => true
-      | Panic, Panic => true
-      | _, _ => false
-      end
+  | IDynamic p f, ODynamic o => dynamic_agree o (dynamic_graffiti p f)
+  | IHeadSeq script evs, OHeadSeq l =>
+      list_eqb (outcome_eqb (option_eqb N.eqb) unit_eqb) l (head_session_now script evs)
+  | IDynamicSeq calls ps fs, ODynamicSeq l =>
+      all2 dynamic_agree l (dynamic_session (N.to_nat calls) ps fs)
+  | IProposeSeq ops, OProposeSeq l =>
+      all2 (fun o m => Bool.eqb (fst o) (fst m) && trace_eqb (snd o) (snd m)) l (propose_seq_now ops)
   | _, _ => false
   end.
 
@@ -297,6 +319,88 @@ Definition P_dynamic (p : fetch) (f : option fetch) (o : outcome (list N) gr_err
   | Ok _, FOther => false
   end.
 
+(* sessions.  What is claimed does not depend on how many calls an operation makes (a handler that
+   asks twice is not condemned by the statement; [agree] pins the number of calls down): no
+   operation panics while every scripted answer is one the client library can deliver, the
+   process survives every event, an event without data and a failing fetch leave the head alone,
+   the head only ever moves to a block the node served; and where every call gets the same answer
+   the outcome of each operation is exactly the single-operation one. *)
+Definition block_shape_eqb (a b : block_shape) : bool :=
+  (bk_version a =? bk_version b) && Bool.eqb (bk_container a) (bk_container b) && Bool.eqb (bk_message a) (bk_message b)
+  && Bool.eqb (bk_body a) (bk_body b) && Bool.eqb (bk_payload a) (bk_payload b)
+  && Bool.eqb (bk_state_zero a) (bk_state_zero b) && (bk_exec a =? bk_exec b).
+
+Definition block_answer_eqb (a b : block_answer) : bool :=
+  match a, b with
+  | BAErr, BAErr => true
+  | BANilResponse, BANilResponse => true
+  | BANilData, BANilData => true
+  | BABlock x, BABlock y => block_shape_eqb x y
+  | _, _ => false
+  end.
+
+Definition fetch_eqb (a b : fetch) : bool :=
+  match a, b with
+  | FData x, FData y => bytes_eqb x y
+  | FNotFound, FNotFound => true
+  | FOther, FOther => true
+  | _, _ => false
+  end.
+
+(* [Some a]: every call is answered [a] *)
+Definition uniform {A} (eqb : A -> A -> bool) (dflt : A) (s : list A) : option A :=
+  match s with
+  | [] => Some dflt
+  | a :: s' => if forallb (eqb a) s' then Some a else None
+  end.
+
+Fixpoint P_head_steps (script : list block_answer) (prev : option N) (evs : list head_event)
+         (obs : list (outcome (option N) unit)) : bool :=
+  match evs, obs with
+  | [], [] => true
+  | ev :: evs', Ok r :: obs' =>
+      (match ev with
+       | EvNoData => option_eqb N.eqb r prev
+       | EvHead =>
+           match uniform block_answer_eqb BAErr script with
+           | Some a => option_eqb N.eqb r (head_after prev a)
+           | None => option_eqb N.eqb r prev || match r with Some x => memb N.eqb x (script_heads script) | None => false end
+           end
+       end)
+      && P_head_steps script r evs' obs'
+  | _, _ => false                        (* a panic, or the process did not get through its events *)
+  end.
+
+Definition P_head_session (script : list block_answer) (evs : list head_event) (obs : list (outcome (option N) unit)) : bool :=
+  negb (forallb answer_wf script)        (* outside what the client library can deliver: nothing claimed *)
+  || P_head_steps script None (EvHead :: evs) obs.      (* the constructor's fetch counts as a head event on an empty cache *)
+
+Definition P_dynamic_session (calls : N) (ps : list fetch) (fs : option (list fetch)) (obs : list (outcome (list N) gr_err)) : bool :=
+  let files := script_files ps ++ match fs with Some fl => script_files fl | None => [] end in
+  let is_other f := match f with FOther => true | _ => false end in
+  (* an error needs a source that fails other than by "not found" (an empty script fails every call) *)
+  let fails_somewhere := match ps with [] => true | _ => existsb is_other ps end
+                         || match fs with Some [] => true | Some fl => existsb is_other fl | None => false end in
+  (lenN obs =? calls)
+  && forallb (fun o => match o with
+                       | Panic => false
+                       | Err _ => fails_somewhere
+                       | Ok line => negb (memb N.eqb LF line) && ((lenN line =? 0) || existsb (contains line) files)
+                       end) obs
+  && match uniform fetch_eqb FOther ps, match fs with Some fl => option_map Some (uniform fetch_eqb FOther fl) | None => Some None end with
+     | Some p, Some f => forallb (P_dynamic p f) obs
+     | _, _ => true
+     end.
+
+(* every proposal of a session on its own; a panic outside the decoder domain ends the session *)
+Fixpoint P_propose_session (ops : list p1_in) (obs : list (bool * p1_trace)) : bool :=
+  match ops, obs with
+  | [], [] => true
+  | i :: ops', (p, tr) :: obs' =>
+      P_propose i p tr && (if p then match obs' with [] => true | _ => false end else P_propose_session ops' obs')
+  | _, _ => false
+  end.
+
 Definition P_b (c : case) : bool :=
   match c_in c, c_obs c with
   | IPropose i, OPropose p tr => P_propose i p tr
@@ -307,6 +411,9 @@ Definition P_b (c : case) : bool :=
   | IHead h, OHead o => P_head h o
   | IErrBody s b, OErrBody o => P_errbody s b o
   | IDynamic p f, ODynamic o => P_dynamic p f o
+  | IHeadSeq script evs, OHeadSeq l => P_head_session script evs l
+  | IDynamicSeq calls ps fs, ODynamicSeq l => P_dynamic_session calls ps fs l
+  | IProposeSeq ops, OProposeSeq l => P_propose_session ops l
   | _, _ => false
   end.
 
